@@ -433,19 +433,8 @@ def rule_deleg(ctx, rep):
             imp = b.get("impl") or {}
             if b.get("name") != "ptr_eq" or not imp or F.handle_name(imp["self_ty"]) is None or imp.get("trait"):
                 continue
-            B = cfg.Body(b)
             ik = b["key"]
-            o = B.origin_local(0)
-            sides = None
-            if o.get("kind") == "call" and len(o["term"]["args"]) == 2 and (atomics.callee_of(o["term"]) in ("core::ptr::addr_eq", "core::ptr::eq") or (o["term"].get("callee_trait") == "core::cmp::PartialEq" and o["term"].get("callee_name") == "eq" and pointer_like(F, o["term"]["callee_self"]))):
-                sides = [operand_place(a) for a in o["term"]["args"]]
-            elif o.get("kind") == "rvalue" and o["rv"]["k"] == "binop" and o["rv"]["op"] == "Eq":
-                sides = [operand_place(o["rv"]["a"]), operand_place(o["rv"]["b"])]
-            has_branch = any(bl["term"]["k"] == "switch" for bl in b["blocks"])
-            ok = sides is not None and not has_branch and all(x is not None for x in sides)
-            if ok:
-                ra = [_roots(B, x["l"], set()) for x in sides]
-                ok = (1 in ra[0] and 2 not in ra[0] and 2 in ra[1] and 1 not in ra[1]) or (2 in ra[0] and 1 not in ra[0] and 1 in ra[1] and 2 not in ra[1])
+            ok = ptr_eq_is_pure(F, b)
             if ok:
                 rep.ok("R-LICENCE", ik, "pointer equality of the two stored pointers", cfg=tag)
             else:
@@ -604,7 +593,11 @@ def _whole_word_of(F, B, op):
     - `self.p`, `&other.ptr`, `self.p.as_ptr()` - with no arithmetic on the way, return k."""
     from .. import symx
 
-    e = symx.expr(F, B, op)
+    from .. import balance as _bal
+
+    # (a private accessor - `fn ptr(&self) -> *mut ArcInner<T> { self.p.as_ptr() }` - is read through; one that masks or offsets
+    # the word - `fn addr(&self) -> usize { self.p.as_ptr() as usize & !1 }` - then shows its arithmetic)
+    e = symx.normalize_calls(F, symx.expr(F, B, op), lambda k: not _bal.is_api(F, F.body(k)))
     for _ in range(12):
         if not isinstance(e, tuple) or not e:
             return None
@@ -618,12 +611,35 @@ def _whole_word_of(F, B, op):
             e = e[3][0]
         else:
             break
-    if not (isinstance(e, tuple) and e and e[0] == "proj" and e[1][0] == "arg"):
+    # `(*&(*arg).0).p`: projections of references to projections are one path from the argument
+    names_all = []
+    while isinstance(e, tuple) and e and e[0] in ("proj", "addr"):
+        if e[0] == "proj":
+            names_all = list(e[2]) + names_all
+        e = e[1]
+    if not (isinstance(e, tuple) and e and e[0] == "arg"):
         return None
+    e = ("proj", e, tuple(names_all))
     names = [n for n in e[2] if n != "*"]
     if len(names) != 1:
         return None
     return e[1][1]
+
+
+def ptr_eq_is_pure(F, b):
+    """`ptr_eq` is nothing but the equality of the two handles' whole stored pointers: no branch, no further condition, no
+    arithmetic on the words (comparing addresses with a tag masked off equates the two variants of an `ArcUnion<A, A>`)."""
+    B = cfg.Body(b)
+    o = B.origin_local(0)
+    sides = None
+    if o.get("kind") == "call" and len(o["term"]["args"]) == 2 and (atomics.callee_of(o["term"]) in ("core::ptr::addr_eq", "core::ptr::eq") or (o["term"].get("callee_trait") == "core::cmp::PartialEq" and o["term"].get("callee_name") == "eq" and o["term"].get("callee_self") is not None and pointer_like(F, o["term"]["callee_self"]))):
+        sides = list(o["term"]["args"])
+    elif o.get("kind") == "rvalue" and o["rv"]["k"] == "binop" and o["rv"]["op"] == "Eq":
+        sides = [o["rv"]["a"], o["rv"]["b"]]
+    if sides is None or any(bl["term"]["k"] == "switch" for bl in b["blocks"]):
+        return False
+    ks = [_whole_word_of(F, B, x) for x in sides]
+    return sorted(k for k in ks if k) == [1, 2]
 
 
 def licence_tests(F, b):
@@ -642,7 +658,8 @@ def licence_tests(F, b):
             t = c["call"]
             callee = atomics.callee_of(t)
             if (F.body(callee) or {}).get("name") == "ptr_eq":
-                tests.append((bi, tt, c, t))
+                if ptr_eq_is_pure(F, F.body(callee)):  # (judged on its own as well: R-LICENCE below)
+                    tests.append((bi, tt, c, t))
                 continue
             if len(t["args"]) == 2 and (callee in ("core::ptr::addr_eq", "core::ptr::eq") or (t.get("callee_trait") == "core::cmp::PartialEq" and t.get("callee_name") == "eq" and t.get("callee_self") is not None and pointer_like(F, t["callee_self"]))):
                 ks = [_whole_word_of(F, B, a) for a in t["args"]]
